@@ -8,7 +8,9 @@ CONSTANTS
   RouterMACs = {"rm1", "rm2", "rm3"}
   HostLLA = "hostlla"
   AllNodes = "allnodes"
-  LLAs = {"l1", "l2", "l3", "l4"}
+  LLAs = {"l1", "l2", "l3", "l4", "lz1", "lx1", "lx2"}
+  ZLLA = "lz1"
+  ZBase = "l1"
   GUAs = {"g1", "g2", "ula1", "unspec6", "loop6", "mc5", "map4", "allnodes"}
   V4s = {"a1", "a2"}
   NoIP = "noip"
